@@ -280,6 +280,7 @@ fn run_range(tier: Tier, start: usize, end: usize, cs: &[Case], t: &mut Tally) {
     while next < end {
         let mut child = Command::new(&exe)
             .args(["C03", "--pump-child", tier.name(), &next.to_string(), &end.to_string()])
+            .env("VERIF_SYSTEM_ALLOC", "1")
             .stdout(Stdio::piped())
             .stderr(Stdio::null())
             .spawn()
